@@ -166,6 +166,13 @@ def mutate(data: bytes, spec: list, other: bytes = b"") -> bytes:
         return data[:off] + data[off:off + n] * 2 + data[off + n:]
     if op == "const":
         return CONSTS[spec[1]]
+    if op == "olevec":
+        # KF-C01-01 witness: TitlesOfParts (VT_VECTOR|VT_LPSTR) of \x05DocumentSummaryInformation becomes
+        # VT_VECTOR|VT_I8 (an element type olefile does not decode) with spec[1] elements
+        i = data.find(bytes.fromhex("1e100000"))
+        if i < 0:
+            return data
+        return data[:i] + struct.pack("<II", 0x1014, spec[1]) + data[i + 8:]
     if op == "zipshell":
         return zip_shell(data, spec[1], spec[2], spec[3])
     if op == "ziphdr":
@@ -359,3 +366,50 @@ def build_archive(fmt: str, members: list) -> bytes:
 HOSTILE_MEMBER_NAMES = ["../../evil.txt", "/abs/evil.txt", "a/" * 60 + "deep.txt", "x" * 250 + ".txt",
                         "weird\x00name.txt", "café.docx", ".hidden.txt", "__MACOSX/._a.docx", "dir/",
                         "no_extension", "a.zip", "b.tar.gz", "c.DOCX", "d.txt ", "e..txt", "con.txt"]
+
+
+# ------------------------------------------------------------- KF-C01-01 domain evidence (mirrors olefile 0.47)
+_OLE_DECODED = {2, 18, 3, 22, 10, 19, 23, 8, 30, 65, 31, 64, 17, 72, 71, 11}
+
+
+def ole_vector_evidence(data: bytes) -> dict:
+    """What olefile.getproperties() would meet in \\x05SummaryInformation / \\x05DocumentSummaryInformation:
+    the largest element count of a VT_VECTOR property whose element type it does not decode (such a property is
+    walked `count` times without consuming input).  Fields of the Timeout event that TLC evaluates."""
+    out = {"ole": False, "vec": False, "known": True, "cntk": 0}
+    try:
+        import olefile
+        if not olefile.isOleFile(io.BytesIO(data)):
+            return out
+        ole = olefile.OleFileIO(io.BytesIO(data))
+    except Exception:
+        return out
+    out["ole"] = True
+    for name in ("\x05SummaryInformation", "\x05DocumentSummaryInformation"):
+        try:
+            if not ole.exists(name):
+                continue
+            fp = ole.openstream(name)
+            fp.read(28)
+            hdr = fp.read(20)
+            fp.seek(struct.unpack("<I", hdr[16:20])[0])
+            size = struct.unpack("<I", fp.read(4))[0]
+            sec = b"****" + fp.read(max(size - 4, 0))
+            nprops = min(struct.unpack("<I", sec[4:8])[0], len(sec) // 8)
+            for i in range(nprops):
+                try:
+                    off = struct.unpack("<I", sec[12 + i * 8:16 + i * 8])[0]
+                    ptype = struct.unpack("<I", sec[off:off + 4])[0]
+                    if not (ptype & 0x1000) or ptype == 0x100C or ptype <= 65 or ptype in (72, 71):
+                        continue
+                    cnt = struct.unpack("<I", sec[off + 4:off + 8])[0]
+                    if (ptype & ~0x1000) in _OLE_DECODED:
+                        continue                       # decoded element types consume input and run off the end
+                    out["vec"] = True
+                    out["known"] = False
+                    out["cntk"] = max(out["cntk"], cnt // 1024)
+                except struct.error:
+                    continue
+        except Exception:
+            continue
+    return out
